@@ -159,16 +159,21 @@ _pre = ["1 <= w1 <= %d" % W, "1 <= w2 <= 2"] + [_BND.format(v=v) for v in ("a1",
     f"-{W} <= c1 <= {W} and c1 != 0", f"-{W} <= c2 <= {W} and c2 != 0", f"-{2*W} <= i <= {2*W}"]
 
 
+def _W2(parts):
+    """quick partitions of the narrow box: parent width <= 2"""
+    return [(t, "w1 <= 2 and " + c) for t, c in parts]
+
+
 def _parts(sels, steps1):
     return parts_product([(f"s{s}", f"sel == {s}") for s in sels], [(f"c{c}".replace("-", "m"), f"c1 == {c}") for c in steps1])
 
 
 @harness("C03", args="sel: int, w1: int, w2: int, a1: int, b1: int, c1: int, a2: int, b2: int, c2: int, i: int",
-         pre=_pre,
+         pre=_pre, pre_order="base_first",
          tiers={
              # quick: in-range bounds only (out-of-range bounds are rejected before resolution: kernels)
-             "quick": {"timeout": 150, "pre": ["w1 <= 2", "w2 == 1", "a2 == 0 and b2 == 0 and c2 == 1 or sel == 1"],
-                       "parts":
+             "quick": {"timeout": 150, "pre": ["w2 == 1", "a2 == 0 and b2 == 0 and c2 == 1 or sel == 1 or sel == 3"],
+                       "parts": _W2(
                            parts_product([("s0", "sel == 0 and i == 0 and (-2 <= a1 <= 2 or a1 == 99) and (-2 <= b1 <= 2 or b1 == 99)")],
                                          [(f"c{c}".replace("-", "m"), f"c1 == {c}") for c in (1, -1, 2, -2)]) +
                            parts_product([("s2", "sel == 2 and i == 0 and (-3 <= a1 <= 3 or a1 == 99) and (-3 <= b1 <= 3 or b1 == 99)")],
@@ -181,7 +186,13 @@ def _parts(sels, steps1):
                            [("s1", "sel == 1 and i == 0 and c1 == -1 and c2 == 1 and a1 == 99 and b1 == 99 and (-2 <= a2 <= 2 or a2 == 99) and (-2 <= b2 <= 2 or b2 == 99)"),
                             ("s1r", "sel == 1 and i == 0 and c1 == 1 and c2 == -1 and a1 == 99 and b1 == 99 and (-2 <= a2 <= 2 or a2 == 99) and (-2 <= b2 <= 2 or b2 == 99)"),
                             ("s6", "sel == 6 and c1 == -1 and a1 == 99 and b1 == 99 and -2 <= i <= 1"),
-                            ("s9", "sel == 9 and c1 == 1 and i == 0 and a1 == 99 and (-3 <= b1 <= 3 or b1 == 99)")]},
+                            ("s9", "sel == 9 and c1 == 1 and i == 0 and a1 == 99 and (-3 <= b1 <= 3 or b1 == 99)")]) +
+                           # strided / reversed-strided parents need 3 bits before a second element exists
+                           [("s1m2", "sel == 1 and w1 == 3 and i == 0 and c1 == -2 and c2 == 1 and a1 == 99 and b1 == 99 and (-2 <= a2 <= 2 or a2 == 99) and (-2 <= b2 <= 2 or b2 == 99)"),
+                            ("s1p2", "sel == 1 and w1 == 3 and i == 0 and c1 == 2 and c2 == -1 and a1 == 99 and b1 == 99 and (-2 <= a2 <= 2 or a2 == 99) and (-2 <= b2 <= 2 or b2 == 99)"),
+                            ("s6m2", "sel == 6 and w1 == 3 and c1 == -2 and (a1 == 99 or a1 == 1) and b1 == 99 and -2 <= i <= 1"),
+                            ("s6p2", "sel == 6 and w1 == 3 and c1 == 2 and a1 == 99 and b1 == 99 and -2 <= i <= 1"),
+                            ("s3m2", "sel == 3 and w1 == 3 and i == 0 and c1 == -2 and a1 == 99 and b1 == 99 and c2 == 1 and a2 == 1 and b2 == 99")]},
              "thorough": {"timeout": 1500, "parts": _parts((0, 2, 5, 6, 7, 8, 9), (1, -1, 2, -2, 3, -3)) +
                           parts_product([(f"s{s}", f"sel == {s}") for s in (1, 3)],
                                         [(f"c{c}".replace("-", "m"), f"c1 == {c}") for c in (1, -1, 2, -2)],
